@@ -485,6 +485,43 @@ class Ctx:
         self.oracle_failures.append({"what": what, "case": case, "input": input_text,
                                      "observed": observed, "expected": expected})
 
+    # --- shrinking (delta debugging on the failing source; the plugin says whether a candidate still fails) ---
+    def shrink(self, text, still_fails, budget=120):
+        import re as _re
+        calls = [0]
+
+        def test(parts):
+            if calls[0] >= budget:
+                return False
+            calls[0] += 1
+            try:
+                return bool(still_fails(self, "".join(parts)))
+            except Exception:
+                return False
+
+        def ddmin(parts):
+            n = 2
+            while len(parts) >= 2 and calls[0] < budget:
+                size = max(1, len(parts) // n)
+                chunks = [parts[i:i + size] for i in range(0, len(parts), size)]
+                reduced = False
+                for i in range(len(chunks)):
+                    cand = [x for j, c in enumerate(chunks) if j != i for x in c]
+                    if cand and test(cand):
+                        parts, n, reduced = cand, max(n - 1, 2), True
+                        break
+                if not reduced:
+                    if size == 1:
+                        break
+                    n = min(len(parts), n * 2)
+            return parts
+
+        parts = [x for x in _re.split(r"(\s+)", text) if x != ""]
+        parts = ddmin(parts)
+        if len("".join(parts)) <= 60:
+            parts = ddmin(list("".join(parts)))
+        return "".join(parts), calls[0]
+
     # --- verdict ---
     def finish(self):
         wall = time.time() - self.t0
@@ -495,6 +532,14 @@ class Ctx:
         if self.oracle_failures:
             self.oracle_failures.sort(key=lambda x: len(str(x.get("input") or x.get("case") or "")))
             f = self.oracle_failures[0]
+            hook = getattr(self.plugin, "still_fails", None)
+            if hook and isinstance(f.get("input"), str) and len(f["input"]) > 12:
+                small, ncalls = self.shrink(f["input"], hook)
+                if small and small != f["input"]:
+                    f = dict(f)
+                    f["shrunk_from"] = f["input"][:400]
+                    f["input"] = small
+                    f["shrink_calls"] = ncalls
             replay = self.write_replay({"property": self.pid, "kind": "failing-input", "failure": f,
                                         "others": [{"what": o["what"], "input": str(o.get("input"))[:300]} for o in self.oracle_failures[1:6]],
                                         "failing_inputs_found": len(self.oracle_failures),
